@@ -9,6 +9,9 @@ CHECKS = {
  "C05": dict(tech="static analysis: SSA CFG must-pass-through path queries (constant-phi / condition-class path sensitivity) + exact truth-table abstract interpretation of the header predicates",
    text="Structural necessary condition, decided exactly for its clause: every return of both NTP client receive functions that can carry a nil error lies behind the datagram read and behind the accept edge of every acceptance test (source, decode, NTS id+AEAD when enabled, origin echo, metadata, timestamps; SCION: layer/type/length/IA/host); ValidateResponseMetadata equals the stated predicate on all 65536 (first byte, stratum) pairs; ProcessResponse stores cookies only after id match and authentication. Behaviour on concrete datagrams is not executed.",
    ref="DESIGN.md §4 C05"),
+ "C09": dict(tech="static analysis: SSA CFG must-pass-through path queries + exact truth-table abstract interpretation of ValidateRequest / SetVersion / SetMode over all first bytes",
+   text="Structural necessary conditions decided exactly for their clause: in both NTP listeners every path from the datagram read to the reply write passes decode, ValidateRequest and (unless len(payload)<=48) the six NTS tests; one write per read; reply to the read's source; reply bytes are the encoded handleRequest response; ValidateRequest equals the stated first-byte set on all 256 values; reply first byte (VN 4, mode 4) is disjoint from it; DecodePacket rejects <48 bytes. No datagram is executed.",
+   ref="DESIGN.md §4 C09"),
 }
 NA = {
  "C04": "all clauses are value arithmetic over time.Time/uint32 (truncation direction, era unfolding, order preservation); no structural or finite-domain clause; matching the constants would be a frozen-fragment proxy",
